@@ -80,12 +80,7 @@ func main() {
 			Property string `json:"property"`
 		}
 		json.Unmarshal(raw, &doc)
-		c, ok := checks.Registry[doc.Property]
-		if !ok || c.Replay == nil {
-			fmt.Fprintf(os.Stderr, "no replayer for %s\n", doc.Property)
-			os.Exit(2)
-		}
-		if err := c.Replay(raw); err != nil {
+		if err := checks.ReplayFor(doc.Property)(raw); err != nil {
 			fmt.Fprintln(os.Stderr, err)
 			os.Exit(2)
 		}
